@@ -18,8 +18,7 @@ where the reflected collection is read; the model applies them up front (`visibl
 `filter` per call site - and then runs the comparison (`diffCore`) on what is left, which is what
 "the database object of that name is treated as absent" means operationally.
 
-Not modelled (stated in the harness as assumptions): the `doubled_constraints` path (a reflected
-unique constraint and a reflected index with the same name - MySQL/PostgreSQL/Oracle only), dialect
+Not modelled (stated in the harness as assumptions): dialect
 `correct_for_autogen_*` hooks, table/column comments (unsupported on SQLite), the version table.
 Iteration orders of Python sets are not modelled: ops are compared as multisets.
 -/
@@ -110,6 +109,11 @@ def consDiffer (P : Cmp) : Cons → Cons → Bool
 def firsts (l : List (String × Cons)) : List (String × Cons) :=
   l.filter (fun p => l.lookup p.1 == some p.2)
 
+/-- some metadata index has the same `unnamed` signature (`(is_unique,) + column names`) -/
+def idxSigIn (mIdxs : List Idx) : Cons → Bool
+  | .idx i => mIdxs.any (fun m => m.unique == i.unique && m.sig == i.sig)
+  | .uq _ => false
+
 /-- the three name loops and the unnamed-unique loop of `_compare_indexes_and_uniques`;
 `conn` is already name-filtered -/
 def cmpIdxUq (P : Cmp) (k : Key) (conn md : Option Tbl) : List Group :=
@@ -119,17 +123,27 @@ def cmpIdxUq (P : Cmp) (k : Key) (conn md : Option Tbl) : List Group :=
   let cN := namedConsOf connU
   let mN := namedConsOf md
   let mUqs := (md.map (·.uqs)).getD []
+  let mIdxs := (md.map (·.idxs)).getD []
+  let mUqSigs := mUqs.map (·.sig)
   let unnamedSigs := (mUqs.filter (fun u => u.name.isNone)).map (·.sig)
   let connUqSigs := ((connU.map (·.uqs)).getD []).map (·.sig)
   -- removed: names on the connection that the metadata does not have
   let removed := (firsts cN).flatMap (fun p =>
     if (mN.lookup p.1).isSome then []
-    else match p.2 with
-      | .uq u => if unnamedSigs.contains u.sig then [] else objRemoved P k inline p.2
-      | .idx _ => objRemoved P k inline p.2)
-  -- existing: names on both sides
+    else match lookupTyped connU false p.1, lookupTyped connU true p.1 with
+      | some cu, some ci =>
+        -- `doubled_constraints`: a reflected unique constraint and a reflected index share the name;
+        -- both go, unless the metadata still has either of them under another name
+        if !idxSigIn mIdxs ci && !mUqSigs.contains (consSig cu) then
+          objRemoved P k inline cu ++ objRemoved P k inline ci
+        else []
+      | _, _ =>
+        match p.2 with
+        | .uq u => if unnamedSigs.contains u.sig then [] else objRemoved P k inline p.2
+        | .idx _ => objRemoved P k inline p.2)
+  -- existing: names on both sides (a doubled name is resolved by the type of the metadata object)
   let existing := (firsts mN).flatMap (fun p =>
-    match cN.lookup p.1 with
+    match lookupConn connU p.2.isIdx p.1 with
     | none => []
     | some c =>
       if c.isIdx != p.2.isIdx then objRemoved P k inline c ++ objAdded P k inline p.2
@@ -137,7 +151,7 @@ def cmpIdxUq (P : Cmp) (k : Key) (conn md : Option Tbl) : List Group :=
       else [])
   -- added: names only in the metadata
   let added := (firsts mN).flatMap (fun p =>
-    if (cN.lookup p.1).isSome then [] else objAdded P k inline p.2)
+    if (lookupConn connU p.2.isIdx p.1).isSome then [] else objAdded P k inline p.2)
   -- unnamed metadata unique constraints, matched by signature
   let unnamed := (mUqs.filter (fun u => u.name.isNone)).flatMap (fun u =>
     if connUqSigs.contains u.sig then [] else objAdded P k inline (.uq u))
@@ -190,8 +204,13 @@ def tableExisting (P : Cmp) (c m : Tbl) : TGroup :=
     colsAddedAltered P c.key c m ++ cmpIdxUq P c.key (some c) (some m) ++
       cmpFks c.key c m ++ colsRemoved c.key c m)
 
+/-- the distinct keys of a list, in order of first occurrence (a Python `set` of keys) -/
+def dedupKeys : List Key → List Key
+  | [] => []
+  | k :: r => k :: (dedupKeys r).filter (fun x => x != k)
+
 /-- the tables a Python dict / set keyed by `(schema, name)` would hold: one per key -/
-def firstTbls (l : List Tbl) : List Tbl := l.filter (fun t => findTbl l t.key == some t)
+def firstTbls (l : List Tbl) : List Tbl := (dedupKeys (l.map Tbl.key)).filterMap (findTbl l)
 
 /-- the iteration structure of `_compare_tables` on the name-filtered reflected side -/
 def candidates (P : Cmp) (conn md : List Tbl) : List TGroup :=
